@@ -23,7 +23,8 @@ SCRIPTS = {
 MODES = [(None, [], False), ("vt_cat", [], False), ("vt_ignore", [], False), ("vt_fail", [], False), ("vt_in $IN", [], False), ("vt_in $IN", ["--no-copy"], False),
          ("vt_inout $IN $OUT", [], False), ("vt_inout $IN $OUT", ["--no-copy"], False), ("vt_inplace $IN", ["--in-place"], False),
          ("vt_innoop $IN", ["--in-place"], False), ("vt_innoop $IN", ["--in-place", "--no-copy"], False), ("vt_failin $IN", ["--in-place"], False),
-         ("vt_failin $IN", ["--no-copy"], False), ("vt_inplace $IN", ["--in-place", "--no-copy"], True)]
+         ("vt_failin $IN", ["--no-copy"], False), ("vt_inplace $IN", ["--in-place", "--no-copy"], True),
+         ("vt_no_such_program", [], False), ("vt_no_such_program $IN", ["--in-place"], False)]        # cannot be launched: fail fast, leave nothing behind
 
 
 def build(work, seed):
@@ -78,7 +79,8 @@ def one(t):
         else:
             g = lib.run_fclones(["group", "b"] + spec["gopts"], work, env, timeout=120)
             before = snapshot(base)
-            args = list(dd.OPS[spec["op"]]) + ([os.path.join(work, "MV")] if spec["op"] == "move" else []) + ["--dry-run"] + spec["opts"]
+            mvdir = os.path.join(base, "x", "moved-here") if spec.get("tinside") else os.path.join(work, "MV")      # tinside: a new directory INSIDE the scanned tree
+            args = list(dd.OPS[spec["op"]]) + ([mvdir] if spec["op"] == "move" else []) + ["--dry-run"] + spec["opts"]
             r = lib.run_fclones(args, work, senv, stdin=g.out, timeout=120)
             res["excepted"] = False
         after = snapshot(base)
@@ -127,6 +129,9 @@ def main(tier):
                 gopts = ["--isolate"]
             k += 1
             cases.append((k, "dry-run", {"op": op, "gopts": gopts, "opts": opts}, rng.randint(0, 1 << 20)))
+    for opts in ([], ["-o", "../script.sh"], ["--name", "f*"]):
+        k += 1
+        cases.append((k, "dry-run", {"op": "move", "gopts": [], "opts": opts, "tinside": True}, rng.randint(0, 1 << 20)))
     results = lib.pmap(one, cases, workers=12)
     nontrivial = 0
     for r in results:
